@@ -150,6 +150,23 @@ pub fn run_variant_part(var: &str, id: &str, tier: Tier) -> Result<Part, String>
     ))
 }
 
+/// A check written against a Report that also runs, unchanged, on the in-process build: the OS
+/// build runs `run_all`, then collects the in-process build's part; the in-process binary
+/// (`--part`) runs `run_all` and emits its verdicts and counts.
+pub fn run_with_inproc(id: &str, tier: Tier, part_only: bool, level: &'static str, run_all: &dyn Fn(&mut Report, Tier)) -> i32 {
+    let mut rep = Report::new(id, tier, level);
+    run_all(&mut rep, tier);
+    if part_only {
+        return emit_part(&Part::from_report(&rep));
+    }
+    match run_variant_part("inproc", id, tier) {
+        Ok(p) => p.merge_into(&mut rep),
+        Err(e) => rep.machinery(e),
+    }
+    rep.set("builds", serde_json::json!("everything above on the OS build, and again on the in-process build (keys prefixed inproc.)"));
+    rep.finish()
+}
+
 pub fn emit_part(p: &Part) -> i32 {
     println!("PART {}", serde_json::to_string(p).unwrap());
     0
